@@ -202,5 +202,7 @@ example : parseAt 200 1 (toks sample) = some (sample, []) := by rfl
 theorem lex_skeletons : Skeletons.LexShape := Skeletons.lex_shape
 theorem text_skeletons : Skeletons.TextShape := Skeletons.text_shape
 theorem unparseBefore_skeletons : Skeletons.UnparseBeforeShape := Skeletons.unparseBefore_shape
+theorem f_parser_unparser_skeletons : Skeletons.F_parser_unparserShape := Skeletons.f_parser_unparser_shape
+theorem f_mfmt_main_skeletons : Skeletons.F_mfmt_mainShape := Skeletons.f_mfmt_main_shape
 
 end MtailVerif.C23
